@@ -39,6 +39,8 @@ def gen_cases(rng, tier):
         kind = ["plain", "plain", "hooks", "tree", "linkage"][k % 5]
         md = rng.choice([None, None, 1, 2, 3, 5]) if kind in ("plain", "hooks") else None
         cases.append({"site": kind, "kind": kind, "series": series, "max_dist": md, "use_c": rng.random() < 0.5,
+                      "tree_hooks": kind == "tree" and rng.random() < 0.5,
+                      "weights": [rng.choice([1, 1, 2, 3]) for _ in range(ns)],
                       "refit": rng.random() < 0.3, "method": rng.choice(["complete", "single", "average"]),
                       "settings": {"window": rng.choice([None, 2]), "penalty": None, "psi": None, "max_step": None,
                                    "max_length_diff": None, "inner_dist": "squared euclidean"}})
@@ -118,11 +120,19 @@ def impl_run(case):
             out["clusters2"] = {int(k): sorted(int(x) for x in v) for k, v in res2.items()}
         return out
     if kind == "tree":
-        model = hierarchical.HierarchicalTree(dists_fun=fun, dists_options=dict(opts), show_progress=False)
+        if case.get("tree_hooks"):
+            # the tree built around a model whose own hooks decide the prototype (they return a pair) and the order
+            weights = list(case["weights"])
+            inner = hierarchical.Hierarchical(fun, dict(opts), show_progress=False,
+                                              merge_hook=hierarchical.Hooks.create_weighthook(weights, series),
+                                              order_hook=hierarchical.Hooks.create_orderhook(weights))
+            model = hierarchical.HierarchicalTree(model=inner)
+        else:
+            model = hierarchical.HierarchicalTree(dists_fun=fun, dists_options=dict(opts), show_progress=False)
         res = model.fit(series)
         out = {"clusters": {int(k): sorted(int(x) for x in v) for k, v in res.items()},
                "linkage": [[int(a), int(b), float(d)] for a, b, d, _ in model.linkage]}
-        if case["refit"]:
+        if case["refit"] and not case.get("tree_hooks"):      # the weight hook is stateful by design (it updates its weights)
             model.fit(series)
             out["linkage2"] = [[int(a), int(b), float(d)] for a, b, d, _ in model.linkage]
         return out
@@ -225,4 +235,4 @@ def case_size(case):
 
 def histogram_keys(case):
     return ["kind:" + case["kind"], "n=%d" % len(case["series"]), "max_dist:%s" % case["max_dist"],
-            "use_c:%s" % case["use_c"], "refit:%s" % case["refit"]]
+            "use_c:%s" % case["use_c"], "refit:%s" % case["refit"], "tree_hooks:%s" % bool(case.get("tree_hooks"))]
